@@ -3,6 +3,7 @@
 set -u
 patch="$1"; shift
 cd /verif
+if [ -n "$(git -C /repo status --porcelain -- src)" ]; then echo "refusing: /repo has uncommitted changes under src (they would be lost)"; exit 2; fi
 git -C /repo apply "$patch" || { echo "patch does not apply"; exit 2; }
 for p in "$@"; do
   out=$(./check "$p" --tier quick 2>&1 | tail -4)
